@@ -47,7 +47,7 @@ def struct_pointer_locals(f):
             if 'params_' in txt and txt.startswith('(('):
                 ptr = s.name
                 out[s.name] = '&xs'
-            elif ptr and (ptr + '->') in txt:
+            elif ptr and (ptr + '->') in txt and ('&' in s.cxxtype or '*' in s.cxxtype):
                 out[s.name] = txt.replace(ptr + '->', 'xs.')
         for y in getattr(s, 'items', []) or []:
             fs(y)
@@ -323,3 +323,239 @@ def build_table_query(db, prog, cxx_global, ref_common, propid='C01'):
     H.append('}')
     parts.append('\n'.join(H))
     return {'c': '\n\n'.join(parts) + '\n', 'entry': 'harness', 'meta': {'function': cxx_global, 'what': 'rel', 'cuts': [], 'reference': 'block data ' + ref_common}}
+
+
+# ----------------------------------------------------------------------------------------------
+# decay0_bb against the reference bb(modebb,Qbb,Edlevel,EK,Zdbb,Adbb,istartbb)
+# ----------------------------------------------------------------------------------------------
+
+BB_FIELDS = [
+    # struct field path, common slot (or None), reference dummy/local names, C type
+    ('bx_base_enrange.ebb1', 'cm_enrange_0', [], 'double'), ('bx_base_enrange.ebb2', 'cm_enrange_1', [], 'double'),
+    ('bx_base_enrange.toallevents', 'cm_enrange_2', [], 'double'),
+    ('bx_base_denrange.dens', 'cm_denrange_0', [], 'double'), ('bx_base_denrange.denf', 'cm_denrange_1', [], 'double'),
+    ('bx_base_denrange.mode', 'cm_denrange_2', [], 'int'),
+    ('bx_base_helpbb.Zd', 'cm_helpbb_0', [], 'double'), ('bx_base_helpbb.Ad', 'cm_helpbb_1', [], 'double'),
+    ('bx_base_helpbb.e0', 'cm_helpbb_2', [], 'double'), ('bx_base_helpbb.e1', 'cm_helpbb_3', [], 'double'),
+    ('bx_base_eta_nme.chi_GTw', 'cm_eta_nme_0', [], 'double'), ('bx_base_eta_nme.chi_Fw', 'cm_eta_nme_1', [], 'double'),
+    ('bx_base_eta_nme.chip_GT', 'cm_eta_nme_2', [], 'double'), ('bx_base_eta_nme.chip_F', 'cm_eta_nme_3', [], 'double'),
+    ('bx_base_eta_nme.chip_T', 'cm_eta_nme_4', [], 'double'), ('bx_base_eta_nme.chip_P', 'cm_eta_nme_5', [], 'double'),
+    ('bx_base_eta_nme.chip_R', 'cm_eta_nme_6', [], 'double'),
+    ('modebb', None, ['modebb'], 'int'), ('Qbb', None, ['qbb'], 'double'), ('Edlevel', None, ['edlevel'], 'double'),
+    ('EK', None, ['ek'], 'double'), ('Zdbb', None, ['zdbb'], 'double'), ('Adbb', None, ['adbb'], 'double'),
+    ('istartbb', None, ['istartbb'], 'int'), ('spmax', None, ['spmax'], 'double'),
+]
+BB_ARRAYS = {'spthe1': 1, 'spthe2': 2}
+WL = 6   # array writes per segment
+
+
+def rewrite_arrays(body, side):
+    """accesses to the 1-keV spectrum tables become abstract memory operations: a write is logged (array, index, value),
+    a read returns the most recent logged write of this segment or the shared base content"""
+    E, S = bx2c.E, bx2c.S
+
+    def arr_of(e):
+        if e.k == 'index':
+            a = e.a
+            while a.k == 'paren':
+                a = a.a
+            if a.k == 'var' and a.name in BB_ARRAYS:
+                return BB_ARRAYS[a.name], e.b
+        return None
+
+    def fe(e):
+        if e is None or not isinstance(e, E):
+            return e
+        if e.k == 'assign':
+            t = arr_of(e.a)
+            if t and e.op == '=':
+                return E('call', a='bx_arr_write_' + side, args=[E('ilit', name=str(t[0])), fe(t[1]), fe(e.b)])
+        t = arr_of(e)
+        if t:
+            return E('call', a='bx_arr_read_' + side, args=[E('ilit', name=str(t[0])), fe(t[1])])
+        for a in ('a', 'b', 'c'):
+            x = getattr(e, a)
+            if isinstance(x, E):
+                setattr(e, a, fe(x))
+        if e.args:
+            e.args = [fe(x) for x in e.args]
+        return e
+
+    def fs(s):
+        for a in ('cond', 'e', 'inc', 'value'):
+            x = getattr(s, a, None)
+            if isinstance(x, E):
+                setattr(s, a, fe(x))
+        if s.kind == 'decl' and isinstance(getattr(s, 'init', None), E):
+            s.init = fe(s.init)
+        for y in getattr(s, 'items', []) or []:
+            fs(y)
+        for a in ('then', 'els', 'stmt', 'body', 'init'):
+            y = getattr(s, a, None)
+            if isinstance(y, S):
+                fs(y)
+        return s
+    return fs(body)
+
+
+ARR_SUPPORT = '''
+double __CPROVER_uninterpreted_arrbase(int, int);
+static int wl_x_n, wl_r_n; static int wl_x_id[%(WL)d], wl_r_id[%(WL)d], wl_x_ix[%(WL)d], wl_r_ix[%(WL)d]; static double wl_x_v[%(WL)d], wl_r_v[%(WL)d];
+static double bx_arr_write_x(int id, int ix, double v) { __CPROVER_assert(wl_x_n < %(WL)d, "array write log capacity"); wl_x_id[wl_x_n] = id; wl_x_ix[wl_x_n] = ix; wl_x_v[wl_x_n] = v; wl_x_n = wl_x_n + 1; return v; }
+static double bx_arr_write_r(int id, int ix, double v) { __CPROVER_assert(wl_r_n < %(WL)d, "array write log capacity"); wl_r_id[wl_r_n] = id; wl_r_ix[wl_r_n] = ix; wl_r_v[wl_r_n] = v; wl_r_n = wl_r_n + 1; return v; }
+static double bx_arr_read_x(int id, int ix) { for (int k = %(WL)d - 1; k >= 0; k--) if (k < wl_x_n && wl_x_id[k] == id && wl_x_ix[k] == ix) return wl_x_v[k]; return __CPROVER_uninterpreted_arrbase(id, ix); }
+static double bx_arr_read_r(int id, int ix) { for (int k = %(WL)d - 1; k >= 0; k--) if (k < wl_r_n && wl_r_id[k] == id && wl_r_ix[k] == ix) return wl_r_v[k]; return __CPROVER_uninterpreted_arrbase(id, ix); }
+'''
+
+EVREC = '''
+#define BX_EVN 6
+static int ref_ev_npfull, ref_n0; static int re_code[BX_EVN]; static double re_time[BX_EVN]; static double re_mom[BX_EVN][3];
+static void ref_set_npgeant(int n, int v) { int j = n - ref_n0 - 1; __CPROVER_assert(j >= 0 && j < BX_EVN, "reference event record capacity"); re_code[j] = v; }
+static void ref_set_pmoment(int k, int n, double v) { int j = n - ref_n0 - 1; __CPROVER_assert(j >= 0 && j < BX_EVN && k >= 1 && k <= 3, "reference event record capacity"); re_mom[j][k - 1] = v; }
+static void ref_set_ptime(int n, double v) { int j = n - ref_n0 - 1; __CPROVER_assert(j >= 0 && j < BX_EVN, "reference event record capacity"); re_time[j] = v; }
+static int xe_n; static int xe_code[BX_EVN]; static double xe_time[BX_EVN]; static double xe_mom[BX_EVN][3];
+'''
+
+
+def fun_ids(db):
+    ids = {}
+    for n in sorted(db['funcs']):
+        m = re.match(r'^decay0_(fe\d+_mod\d+|dshelp\d)$', n)
+        if m:
+            ids[m.group(1)] = len(ids) + 1
+    return ids
+
+
+def build_bb(db, prog, propid='C02', only=None):
+    E, S = bx2c.E, bx2c.S
+    old = (rel.NA, )
+    rel.NA = 24
+    global NA
+    NA = 24
+    try:
+        return _build_bb(db, prog, propid, only)
+    finally:
+        rel.NA = old[0]
+        NA = old[0]
+
+
+def _build_bb(db, prog, propid, only=None):
+    T = db['types']
+    pairing = rel.Pairing(db, prog)
+    fx = db['funcs']['decay0_bb']
+    fr = prog.translate('bb')
+    ids = fun_ids(db)
+    scal = [f_ for f_ in BB_FIELDS]
+    clos_x = ['(double)((struct bbpars *)PP)->%s' % f_[0] for f_ in scal if f_[1]]
+    clos_r = ['(double)%s' % f_[1] for f_ in scal if f_[1]]
+    ptrs = struct_pointer_locals(fx)
+    setup = ['  __CPROVER_assume(xs.modebb >= 1 && xs.modebb <= 20);   /* genbbsub passes a legacy mode 1..20 (C06) */'] if False else []
+    setup += ['  x_params_ = (void *)&xs; wl_x_n = 0; wl_r_n = 0; xe_n = 0; ref_n0 = nondet_int(); __CPROVER_assume(ref_n0 >= 0 && ref_n0 <= 50); ref_ev_npfull = ref_n0;']
+    for nm, path in ptrs.items():
+        if nm in BB_ARRAYS:
+            continue
+        setup.append('  x_%s = %s;' % (nm, path))
+    ref_names = {rel.norm(p[1]) for p in fr.params} | {rel.norm(l[1]) for l in fr.locals}
+    checks = []
+    skip = set(rel.norm(n) for n in ptrs) | set(BB_ARRAYS)
+    G = ['static struct bbpars xs;', ARR_SUPPORT % {'WL': WL}, EVREC]
+    byref = {rel.norm(p[1]) for p in fr.params if p[3]}
+    cxx_locals = {rel.norm(l[1]): l for l in fx.locals}
+    for fld, cm, refs, ct in scal:
+        targets = ['xs.%s' % fld] + ([cm] if cm else [])
+        for r_ in refs:
+            if r_ in cxx_locals and rel.norm(cxx_locals[r_][1]) not in [rel.norm(n_) for n_ in ptrs] and '&' not in cxx_locals[r_][0] and '*' not in cxx_locals[r_][0]:
+                targets.append('x_%s' % cxx_locals[r_][1])   # a by-value copy of the field in the C++ routine
+            if r_ in ref_names:
+                if r_ in byref:
+                    G.append('static %s pr_%s;' % (ct, r_))
+                    setup.append('  r_%s = &pr_%s;' % (r_, r_))
+                    targets.append('pr_%s' % r_)
+                else:
+                    targets.append('r_%s' % r_)
+            skip.add(r_)
+        if cm:
+            G.append('static %s %s;' % (ct, cm))
+        setup.append('  { %s v = nondet_%s(); %s }' % (ct, ct, ' '.join('%s = v;' % t for t in targets)))
+        for t in targets[1:]:
+            checks.append(('state ' + fld.split('.')[-1], 'bx_same((double)xs.%s, (double)%s)' % (fld, t)))
+    # array write logs and appended particles
+    checks.append(('array writes (count)', 'wl_x_n == wl_r_n'))
+    for k in range(WL):
+        checks.append(('array write #%d' % (k + 1), '(%d >= wl_x_n || %d >= wl_r_n || (wl_x_id[%d] == wl_r_id[%d] && wl_x_ix[%d] == wl_r_ix[%d] && bx_same(wl_x_v[%d], wl_r_v[%d])))' % ((k,) * 8)))
+    checks.append(('particles appended directly (count)', 'xe_n == ref_ev_npfull - ref_n0'))
+    for k in range(2):
+        checks.append(('particle appended directly #%d' % (k + 1),
+                       '(%d >= xe_n || (xe_code[%d] == re_code[%d] && bx_same(xe_time[%d], re_time[%d]) && bx_same(xe_mom[%d][0], re_mom[%d][0]) && bx_same(xe_mom[%d][1], re_mom[%d][1]) && bx_same(xe_mom[%d][2], re_mom[%d][2])))' % ((k,) * 11)))
+    setup.append('  __CPROVER_assume(xs.modebb >= 1 && xs.modebb <= 20);   /* genbbsub passes a legacy mode 1..20 (C06) */')
+    hooks = {'ref': 'bb', 'skip_vars': skip, 'extra_setup': setup, 'extra_checks': checks, 'extra_globals': G,
+             'custom_stubs_x': {}, 'custom_stubs_r': {}, 'event_record': True,
+             'transform_x': lambda b: rewrite_arrays(b, 'x'), 'transform_r': lambda b: rewrite_arrays(b, 'r'),
+             'inline_x': ('particle__ctor', 'particle__set_time', 'particle__set_code', 'particle__set_momentum', 'particle__set_px',
+                          'particle__set_py', 'particle__set_pz'),
+             'cutmap': {'bx_loop4_head': 'label_2', 'bx_loop5_head': 'label_3'}}
+    pr = bx2c.Printer(T, bx2c.Opts())
+    # event_.add_particle(part): the C++ side of "append to the event record"
+    g = db['funcs']['event__add_particle']
+    hooks['custom_stubs_x']['event__add_particle'] = pr.signature(g) + '\n{\n  __CPROVER_assert(xe_n < BX_EVN, "event record capacity"); xe_code[xe_n] = p_->_code_; xe_time[xe_n] = p_->_time_; xe_mom[xe_n][0] = p_->_momentum_[0]; xe_mom[xe_n][1] = p_->_momentum_[1]; xe_mom[xe_n][2] = p_->_momentum_[2]; xe_n = xe_n + 1;\n}'
+
+    def stub(sig, side, cid, args, outs=(), ret=None):
+        pad = args + ['0.0'] * (NA - len(args))
+        L = [sig, '{', '  int k = tr_%s_n; __CPROVER_assert(k < %d, "trace capacity"); tr_%s_id[k] = %d;' % (side, rel.NC, side, cid)]
+        for j, a in enumerate(args):
+            L.append('  tr_%s_arg[k][%d] = %s;' % (side, j, a))
+        for o_, (nm, ct) in enumerate(outs):
+            L.append('  *%s = (%s)__CPROVER_uninterpreted_out(%d, %d, %s);' % (nm, ct, cid, o_, ', '.join(pad[:NA])))
+        L.append('  tr_%s_n = k + 1; epoch_%s = epoch_%s + 1; idx_%s = 0;' % (side, side, side, side))
+        if ret:
+            L.append('  return (%s)__CPROVER_uninterpreted_out(%d, 99, %s);' % (ret, cid, ', '.join(pad[:NA])))
+        L.append('}')
+        return '\n'.join(L)
+    # closure functions fe*_mod*, dshelp*
+    for c in sorted(fx.calls):
+        m = re.match(r'^decay0_(fe\d+_mod\d+)$', c)
+        if m:
+            gg = db['funcs'][c]
+            cid = pairing.callee_id(m.group(1))
+            pn = [p[1] for p in gg.params]
+            hooks['custom_stubs_x'][c] = stub(pr.signature(gg), 'x', cid, ['(double)%s' % pn[0]] + [a.replace('PP', pn[1]) for a in clos_x], ret='double')
+    for c in sorted(fr.calls):
+        if re.match(r'^fe\d+_mod\d+$', c):
+            cid = pairing.callee_id(c)
+            hooks['custom_stubs_r'][c] = stub('double ref_%s(double e)' % c, 'r', cid, ['(double)e'] + clos_r, ret='double')
+
+    def fid_x(v):
+        return '(' + ' : '.join('%s == decay0_%s ? %d.0' % (v, n, k) for n, k in ids.items()) + ' : 0.0)'
+
+    def fid_r(v, names):
+        return '(' + ' : '.join('%s == ref_%s ? %d.0' % (v, n, ids[n]) for n in names if n in ids) + ' : 0.0)'
+    rfuncs = sorted(n for n in ids if n in fr.calls or n in fr.ref_unit.externals)
+    protos_r = '\n'.join('double ref_%s(double e);' % n for n in rfuncs if n.startswith('fe')) + '\nvoid ref_dshelp1(int m, double *du1, double *df1, double *d_el);'
+    # gauss
+    gg = db['funcs']['decay0_gauss']
+    pn = [p[1] for p in gg.params]
+    hooks['custom_stubs_x']['decay0_gauss'] = stub(pr.signature(gg), 'x', pairing.callee_id('gauss'),
+                                                  [fid_x(pn[0]), '(double)%s' % pn[1], '(double)%s' % pn[2], '(double)%s' % pn[3]] + [a.replace('PP', pn[4]) for a in clos_x], ret='double')
+    hooks['extra_globals'].append(protos_r)
+    hooks['custom_stubs_r']['gauss'] = stub('double ref_gauss(double (*f)(double), double a, double b, double eps)', 'r', pairing.callee_id('gauss'),
+                                                              [fid_r('f', rfuncs), '(double)a', '(double)b', '(double)eps'] + clos_r, ret='double')
+    # tgold
+    gg = db['funcs']['decay0_tgold']
+    pn = [p[1] for p in gg.params]
+    hooks['custom_stubs_x']['decay0_tgold'] = stub(pr.signature(gg), 'x', pairing.callee_id('tgold'),
+                                                  ['(double)%s' % pn[0], '(double)%s' % pn[2], '(double)%s' % pn[4], '(double)%s' % pn[5], fid_x(pn[3])] + [a.replace('PP', pn[8]) for a in clos_x],
+                                                  outs=[(pn[6], 'double'), (pn[7], 'double')])
+    hooks['custom_stubs_r']['tgold'] = stub('void ref_tgold(double a, double b, double (*f)(double), double eps, int minmax, double *xextr, double *fextr)', 'r', pairing.callee_id('tgold'),
+                                            ['(double)a', '(double)b', '(double)eps', '(double)minmax', fid_r('f', rfuncs)] + clos_r, outs=[('xextr', 'double'), ('fextr', 'double')])
+    # dgmlt1(dshelp1, a, b, ni, ng, x, params)
+    gg = db['funcs']['decay0_dgmlt1']
+    pn = [p[1] for p in gg.params]
+    hooks['custom_stubs_x']['decay0_dgmlt1'] = stub(pr.signature(gg), 'x', pairing.callee_id('dgmlt1'),
+                                                   ['(%s == decay0_dshelp1 ? 1.0 : 0.0)' % pn[0], '(double)%s' % pn[1], '(double)%s' % pn[2], '(double)%s' % pn[3], '(double)%s' % pn[4]] + [a.replace('PP', pn[6]) for a in clos_x], ret='double')
+    hooks['custom_stubs_r']['dgmlt1'] = stub('double ref_dgmlt1(void (*f)(int, double *, double *, double *), double a, double b, int ni, int ng, double x)', 'r', pairing.callee_id('dgmlt1'),
+                                             ['(f == ref_dshelp1 ? 1.0 : 0.0)', '(double)a', '(double)b', '(double)ni', '(double)ng'] + clos_r, ret='double')
+    hooks['custom_stubs_r']['dshelp1'] = ''
+    hooks['custom_stubs_x']['decay0_dshelp1'] = ''
+    for n in rfuncs:
+        hooks['custom_stubs_r'].setdefault(n, '')
+    return rel.build_pair_query(db, prog, 'decay0_bb', pairing=pairing, propid=propid, hooks=hooks, only=only)
